@@ -38,6 +38,9 @@ OWNER = [
 ]
 
 
+MIN_STABLE_SITES = 130      # 142 on the confirmed tree (165 with the sites found through locals)
+
+
 def owners(q):
     for pre, pids in OWNER:
         if q.startswith(pre):
@@ -51,7 +54,8 @@ def sites(prog):
     for fq, f in prog.funcs.items():
         if fq.startswith('mchap.testing'):
             continue
-        local = set(f.params)
+        params = set(f.params)
+        local = set(params)
         for n in ast.walk(f.node):
             if isinstance(n, ast.Name) and isinstance(n.ctx, ast.Store):
                 local.add(n.id)
@@ -68,15 +72,15 @@ def sites(prog):
             b = bind_args(g, call, skip_self=g.cls is not None and not isinstance(call.func, ast.Name))
             for p in defaults:
                 if p in local or p in fields:
-                    yield f, g, p, call, p in b
+                    yield f, g, p, call, p in b, (p in params or p in fields)
 
 
 def run(ctx, pid):
     rule = f"R{pid[1:]}.T/must-pass"
     n = 0
     total = 0
-    for f, g, p, call, passed in sites(ctx.prog):
-        total += 1
+    for f, g, p, call, passed, stable in sites(ctx.prog):
+        total += stable          # sites found through a parameter or a dataclass field do not depend on the names of locals
         if pid not in owners(g.qname):
             continue
         n += 1
@@ -90,9 +94,9 @@ def run(ctx, pid):
         else:
             ctx.violation(rule, con, f"{f.name} holds `{p}` but calls {g.name} without it, so {g.name} falls back to its default "
                           f"({ast.unparse(_default(g, p))})", f.where(call))
-    if total < 150:
+    if total < MIN_STABLE_SITES:
         from .model import AnalysisError
-        raise AnalysisError(f"must-pass rule: only {total} sites found, 165 confirmed by hand")
+        raise AnalysisError(f"must-pass rule: only {total} sites found through parameters and fields, {MIN_STABLE_SITES} confirmed by hand")
     return n
 
 
